@@ -59,7 +59,7 @@ TIES = {
             "encode": ("DswModel.Tie.SwEncode", ["tie_encode"]),
             "decode": ("DswModel.Tie.SwDecode", ["tie_decode"]),
         },
-        "extra_modules": [],
+        "extra_modules": ["DswModel.Tie.SwCorollaries"],
     },
 }
 
